@@ -16,3 +16,5 @@ def run(ctx):
         g72x.run(ctx, "C05", 120 if q else 1200)
         from .. import gsm
         gsm.run(ctx, "C05", 80 if q else 800)
+        from .. import querycamp     # count / position / end-of-data clauses of reads with non-audio calls in between
+        querycamp.run(ctx, "C05", parts=("r",))
